@@ -732,6 +732,23 @@ func SpecContains(s string, sub string) bool { return false }
 //@   modifies nothing
 //@   ensures exact: result <==> markerExpiry(cmd)
 
+//@ func RedisOutput.bisyncSlotMode
+//@   arith int
+//@   properties C13
+//@   requires nonnil: ro != nil
+//@   modifies nothing
+
+//@ func withoutBisyncControlCommands
+//@   arith int
+//@   properties C13
+//@   modifies nothing
+//@   ensures no_bookkeeping_is_kept: forall i int :: 0 <= i && i < len(result) ==> !(len(result[i].Args) > 0 && SpecNsKey(string(result[i].Args[0])))
+//@   ensures nothing_is_added: len(result) <= len(cmds)
+//@   ensures fresh_list: fresh(result)
+//@   loop 1:
+//@     invariant kept_is_the_functions_own: fresh(kept)
+//@     invariant kept_so_far: 0 - 1 <= rangeindex && rangeindex < len(cmds) && len(kept) <= rangeindex + 1 && len(kept) >= 0 && (forall i int :: 0 <= i && i < len(kept) ==> !(len(kept[i].Args) > 0 && SpecNsKey(string(kept[i].Args[0]))))
+
 //@ func isBisyncMirroredTransaction
 //@   arith int
 //@   properties C13
@@ -760,7 +777,9 @@ func SpecContains(s string, sub string) bool { return false }
 //@   set emitted = emitted + len(unit.Commands) at call emitUnit
 //@   set bookkeeping = bookkeeping + ite(result, 1, 0) after call isBisyncControlCommand
 //@   set bookkeeping = bookkeeping + ite(result, len(cmds), 0) after call isBisyncMirroredTransaction
-//@   replay syncer_filterStripsMarker syncer_bisyncWrongDatabase
+//@   set bookkeeping = bookkeeping + len(cmds) - len(result) after call withoutBisyncControlCommands
+//@   replay syncer_filterStripsMarker syncer_bisyncWrongDatabase syncer_bookkeepingInForeignTxn
+//@   assert at call buildBisyncReplayUnitWithMode: the_tools_bookkeeping_is_never_part_of_a_unit_that_is_sent_back: forall i int :: 0 <= i && i < len(cmds) ==> !(len(cmds[i].Args) > 0 && SpecNsKey(string(cmds[i].Args[0])))
 //@   assert at call filterCounterAdd: the_tools_own_bookkeeping_is_never_withheld_by_the_output_filters: !(len(argv) > 0 && SpecNsKey(string(argv[0])))
 //@   loop 1:
 //@     invariant decoder: decoder != nil && decoder.r != nil && decoder.offset >= 0
